@@ -115,6 +115,21 @@ CHECKS = {
         note=TLC_BASE + "; shape functions are evaluated on the 5^dim lattice of the element (they are multi-affine, so this determines them)",
         technique="TLA+ exact-rational grid model checked by TLC; table comparison with DomainDefinition",
         design="9/C13"),
+    "C16": dict(
+        text=("Agg.tla models AggActiveSet operationally (band on the normalised values, then removal of the first "
+              "floor(n*lower_amt) and last floor(n*(1-upper_amt)) entries of any sorted order argsort may return) and "
+              "declaratively (band minus disjoint lowest/highest sets of those sizes) in exact rationals; TLC checks for every "
+              "vector with ties up to length 4/5 over {0,1,2,3} (5/6 over {0,1}) and all dyadic fraction combinations that the "
+              "producible masks are exactly the admissible ones and that a fraction rounding to zero removes nothing, and for "
+              "AggScaling histories the recurrence s_k = d*s_(k-1) + (1-d)*true/approx and exactness without damping. Every "
+              "case is replayed on AggActiveSet (mask must be admissible; PNorm with undamped scaling must return the extreme "
+              "of the kept entries) and every history on PNorm(p=1)+AggScaling and on AggScaling directly, compared with the "
+              "exact rationals. [O] the approximation bounds of PNorm, KSFunction and SoftMinMax for both parameter signs are "
+              "evaluated numerically on seeded positive data."),
+        note=(TLC_BASE + "; fractions are dyadic so n*fraction is exact in floating point; the bounds involving n^(1/p) and "
+              "ln(n)/rho are observation predicates evaluated by the harness, not by TLC"),
+        technique="TLA+ exact-rational model of active-set and scaling checked by TLC; replay of all cases; numeric bound observations",
+        design="9/C16"),
 }
 
 
